@@ -1,6 +1,7 @@
 package simcheck
 
 import (
+	"syscall"
 	"errors"
 	"fmt"
 	"os"
@@ -37,6 +38,7 @@ type c08In struct {
 	LatencyMS   []int    `json:"readdir_latency_ms"`
 	SleepMS     []int    `json:"callback_sleep_ms"`
 	FailReadDir int      `json:"fail_readdir_at"`  // n-th ReadDir call fails (-1: none)
+	NotExist    bool     `json:"not_exist,omitempty"` // the failing ReadDir reports "no such file or directory" (the directory vanished), an error like any other
 	FailCall    int      `json:"fail_callback_at"` // n-th callback fails (-1: none)
 	FailCalls   []int    `json:"fail_callbacks,omitempty"` // further failing callbacks (each returns its own error value)
 }
@@ -125,6 +127,7 @@ func c08Gen(r *Rand, tier string) interface{} {
 	switch r.Intn(8) {
 	case 0:
 		in.FailReadDir = r.Intn(1 + len(in.Dirs))
+		in.NotExist = r.Chance(1, 3)
 	case 1:
 		in.FailCall = r.Intn(1 + len(in.Dirs) + len(in.Files))
 	case 2:
@@ -228,7 +231,7 @@ func c08Run(inI interface{}, env *Env) *Failure {
 		}
 		ffs := NewFaultFS(mem, st)
 		// the n-th ReadDir fails: positions count only ReadDir calls here
-		faultFS := &c08FS{FaultFS: ffs, failAt: in.FailReadDir, n: &readDirs, env: env}
+		faultFS := &c08FS{FaultFS: ffs, failAt: in.FailReadDir, notExist: in.NotExist, n: &readDirs, env: env}
 		callback := func(list *[]string) filesystem.LoopOn {
 			return func(fs filesystem.Filespace, p string) error {
 				idx := calls
@@ -320,7 +323,7 @@ func c08Run(inI interface{}, env *Env) *Failure {
 	injected := false
 	for _, e := range loopErrs {
 		var ie *ErrInjected
-		if errors.As(e, &ie) {
+		if errors.As(e, &ie) || (in.NotExist && errors.Is(e, syscall.ENOENT)) {
 			injected = true
 		}
 	}
@@ -388,9 +391,10 @@ func c08Compare(kind string, exp, got []string, faulted bool, shape string) *Fai
 // c08FS fails the n-th ReadDir call.
 type c08FS struct {
 	*FaultFS
-	failAt int
-	n      *int
-	env    *Env
+	failAt   int
+	notExist bool
+	n        *int
+	env      *Env
 }
 
 func (f *c08FS) ReadDir(p string) ([]os.FileInfo, error) {
@@ -398,6 +402,9 @@ func (f *c08FS) ReadDir(p string) ([]os.FileInfo, error) {
 	*f.n++
 	if i == f.failAt {
 		f.env.Count("fault.op-error")
+		if f.notExist {
+			return nil, &os.PathError{Op: "open", Path: p, Err: syscall.ENOENT}
+		}
 		return nil, &ErrInjected{Pos: i, Kind: FaultOpError, Op: "ReadDir " + p}
 	}
 	return f.FaultFS.ReadDir(p)
